@@ -258,6 +258,37 @@ func ruleMERGE1(c *Ctx) {
 	p := c.P
 	ft := p.Flags()
 	merge := ft.Single["MergeWithLegacySemantics"]
+	// ---- map: an interface-typed key is only used after its *dynamic* type was found comparable
+	if f := p.Func("json.makeMapArshaler:unmarshal"); f != nil && f.Body() != nil {
+		dyn, static := 0, 0
+		p.InspectScope(f, func(g *FuncInfo, nd ast.Node) bool {
+			call, ok := nd.(*ast.CallExpr)
+			if !ok {
+				return true
+			}
+			sel, ok := ast.Unparen(call.Fun).(*ast.SelectorExpr)
+			if !ok || sel.Sel.Name != "Comparable" {
+				return true
+			}
+			viaElem := false
+			ast.Inspect(sel.X, func(m ast.Node) bool {
+				if c2, ok := m.(*ast.CallExpr); ok {
+					if s2, ok := ast.Unparen(c2.Fun).(*ast.SelectorExpr); ok && s2.Sel.Name == "Elem" {
+						viaElem = true
+					}
+				}
+				return true
+			})
+			if viaElem {
+				dyn++
+			} else {
+				static++
+			}
+			return true
+		})
+		c.Oblige("map:incomparable-dynamic-key-rejected", f.Pos(), dyn > 0 && static == 0,
+			"the map unmarshaler does not test the dynamic type of an interface key (K.Elem().Type().Comparable()) before using it as a key: an unhashable value stored by a user unmarshaler would panic in reflect")
+	}
 	// ---- slice
 	if f := p.Func("json.makeSliceArshaler:unmarshal"); f == nil {
 		c.Undecide("json.makeSliceArshaler:unmarshal", "closure missing")
